@@ -15,13 +15,13 @@ from ..world import World, digest_obj, stamp, walk_files, write_file
 
 TAMPERS = ["truncate", "append", "rewrite-same-len", "rewrite-other-len", "replace-by-rename",
            "replace-by-rename-same-len-same-mtime"]
-QUERIES = ["check", "exist1", "exist2", "exist-bulk", "hcheck", "checkout", "add-verify-good", "add-verify-bad",
+QUERIES = ["check", "check-upper", "exist1", "exist2", "exist-bulk", "hcheck", "checkout", "add-verify-good", "add-verify-bad",
            "add-verify-good-force", "add-verify-bad-force", "xfer-verify-bad"]
 # a legacy (md5-dos2unix) store holding a CRLF text object that spans two hashing chunks
 BIG_TEXT = b"line\r\n" * 174770 + b"tail of the text\r\n"
 
 
-def tamper(path, how, keep_protected=False, near=False):
+def tamper(path, how, keep_protected=False, near=False, odd_mode=False):
     data = open(path, "rb").read()
     orig_ns = os.stat(path).st_mtime_ns
     os.chmod(path, 0o644)
@@ -45,7 +45,8 @@ def tamper(path, how, keep_protected=False, near=False):
     else:
         with open(path, "wb") as f:
             f.write(new)
-    os.chmod(path, 0o444 if keep_protected else 0o644)
+    # odd_mode: owner-write cleared but group / other write set - not the protected mode, so not trusted
+    os.chmod(path, 0o444 if keep_protected else (0o466 if odd_mode else 0o644))
     if how == "replace-by-rename-same-len-same-mtime" and data:
         # only the inode tells the difference
         os.utime(path, ns=(orig_ns, orig_ns))
@@ -94,12 +95,18 @@ def setup(w, kind, statemode, target):
         odb.state = state
     oid = MD5["x"] if target == "file" else tree_oid("A")
     good = os.path.join(src, "x" if target == "file" else "A.dir")
+    if target == "crlf":
+        # a CR LF text object in a plain md5 store: its name is the md5 of the raw bytes
+        good = os.path.join(src, "crlf")
+        write_file(good, CONTENTS["crlf"])
+        oid = MD5["crlf"]
+        odb.add(good, LFS, oid)
     bad = os.path.join(src, "bad")
     write_file(bad, b"not the bytes this name promises")
     return odb, state, oid, good, bad
 
 
-def run_seq(seq, kind, statemode, target, keep_protected=False, near=False):
+def run_seq(seq, kind, statemode, target, keep_protected=False, near=False, odd_mode=False):
     from dvc_objects.errors import ObjectFormatError
 
     from dvc_data.hashfile import check as hcheck
@@ -120,6 +127,12 @@ def run_seq(seq, kind, statemode, target, keep_protected=False, near=False):
             tree_obj = None if legacy else load(odb, hi(tree_oid("A")))  # loaded while everything is intact
             for i, op in enumerate(seq):
                 where = f"step {i} {op} of {seq} kind={kind} state={statemode} target={target}"
+                if op == "unprotect":
+                    # the object is left writable but keeps its bytes (an interrupted add, a copied cache):
+                    # still intact, any check must accept it (and a local store re-protects it)
+                    if os.path.exists(path):
+                        os.chmod(path, 0o644)
+                    continue
                 if op in TAMPERS:
                     if model == "absent":
                         continue
@@ -128,7 +141,7 @@ def run_seq(seq, kind, statemode, target, keep_protected=False, near=False):
                         os.chmod(path, 0o644)
                         with open(path, "wb") as f:
                             f.write(good_bytes)
-                    tamper(path, op, keep_protected, near)
+                    tamper(path, op, keep_protected, near, odd_mode)
                     model = "corrupt"
                     continue
                 exists_before = os.path.exists(path)
@@ -140,6 +153,20 @@ def run_seq(seq, kind, statemode, target, keep_protected=False, near=False):
                         res = "rejected"
                     except FileNotFoundError:
                         res = "notfound"
+                elif op == "check-upper":
+                    # the same digest spelled in upper case names no object of the store: nothing may be harmed
+                    try:
+                        odb.check(oid.upper())
+                    except (ObjectFormatError, FileNotFoundError):
+                        pass
+                    got_u = odb.oids_exist([oid.upper()]) if kind == "local" else []
+                    if model == "intact" and (not os.path.exists(path) or open(path, "rb").read() != good_bytes):
+                        viol.append(("intact-object-damaged/check-upper", where))
+                    if oid.upper() != oid and oid.upper() in got_u and model != "intact":
+                        viol.append(("corrupt-object-accepted/check-upper", where))
+                    if not os.path.exists(path):
+                        model = "absent"
+                    continue
                 elif op in ("exist1", "exist2", "exist-bulk"):
                     ids = [oid] if op == "exist1" else [oid, oid_y]
                     if op == "exist-bulk":
@@ -151,8 +178,8 @@ def run_seq(seq, kind, statemode, target, keep_protected=False, near=False):
                     res = "accepted" if oid in got else "rejected"
                     if op == "exist2" and oid_y not in got:
                         viol.append(("intact-object-reported-missing", f"y at {where}"))
-                elif op == "hcheck" and legacy:
-                    continue
+                elif op == "hcheck" and (legacy or target == "crlf"):
+                    continue   # (hashfile.check(tree A) says nothing about an object outside tree A)
                 elif op == "hcheck":
                     try:
                         hcheck(odb, tree_obj)
@@ -164,7 +191,7 @@ def run_seq(seq, kind, statemode, target, keep_protected=False, near=False):
                 elif op == "checkout":
                     out = w.p(f"out{i}")
                     try:
-                        if target in ("file", "legacy"):
+                        if target in ("file", "legacy", "crlf"):
                             obj = odb.get(oid)
                             checkout(out, LFS, obj, odb, force=True)
                         else:
@@ -178,9 +205,9 @@ def run_seq(seq, kind, statemode, target, keep_protected=False, near=False):
                     trusted = keep_protected and kind == "local" and model == "corrupt"
                     if wrong and not trusted:
                         viol.append(("checkout-materialised-corrupt-bytes", f"{wrong} at {where}"))
-                    if target in ("file", "legacy") and model != "intact" and got and not trusted:
+                    if target in ("file", "legacy", "crlf") and model != "intact" and got and not trusted:
                         viol.append(("checkout-materialised-a-rejected-object", f"{got} at {where}"))
-                    if target in ("file", "legacy") and model == "intact" and got != {"": good_bytes}:
+                    if target in ("file", "legacy", "crlf") and model == "intact" and got != {"": good_bytes}:
                         viol.append(("checkout-of-intact-object-failed", f"{got} at {where}"))
                 elif op == "xfer-verify-bad":
                     # a verifying, expanded transfer of tree A from a generic source store whose copy of this
@@ -285,7 +312,7 @@ def run_case(case):
     res = {"n": 0, "trans": 0, "states": [], "outcomes": set(), "nontrivial": set(), "viol": [],
            "vac": {"rejections": 0, "acceptances": 0, "protected_tamper_trusted": 0}}
     sigs = set()
-    ops = TAMPERS + QUERIES
+    ops = TAMPERS + ["unprotect"] + QUERIES
     first = case["first"]
     for rest in itertools.product(ops, repeat=case["depth"] - 1):
         seq = (first, *rest)
@@ -311,6 +338,23 @@ def run_case(case):
     if first in TAMPERS and not case["keep"]:
         for q in QUERIES:
             for seq in ((first, q), (q, first, q)):
+                for tgt2, odd in (("crlf", False), ("file", True), ("tree", True)):
+                    if odd and case["kind"] != "local":
+                        continue
+                    v2, _c2 = run_seq(seq, case["kind"], case["state"], tgt2, False, case.get("near", False), odd_mode=odd)
+                    res["n"] += 1
+                    res["trans"] += len(seq)
+                    res["vac"]["crlf_or_odd_mode_runs"] = res["vac"].get("crlf_or_odd_mode_runs", 0) + 1
+                    d2 = digest_obj((seq, tgt2, odd, case["kind"], case["state"], case.get("near", False)))
+                    res["states"].append(d2)
+                    res["nontrivial"].add(d2)
+                    for sig, detail in v2:
+                        sig = sig + ("/mode-0466" if odd else "/crlf-object")
+                        if sig not in sigs:
+                            sigs.add(sig)
+                            res["viol"].append((sig, detail, {"seq": list(seq), "kind": case["kind"], "state": case["state"],
+                                                              "target": tgt2, "keep": False, "near": case.get("near", False),
+                                                              "odd_mode": odd}))
                 viol, counted = run_seq(seq, case["kind"], case["state"], "legacy", False, case.get("near", False))
                 res["n"] += 1
                 res["trans"] += len(seq)
@@ -332,16 +376,21 @@ def run_case(case):
 
 
 def replay(case):
-    return run_seq(tuple(case["seq"]), case["kind"], case["state"], case["target"], case["keep"],
-                   case.get("near", False))[0]
+    v = run_seq(tuple(case["seq"]), case["kind"], case["state"], case["target"], case["keep"],
+                case.get("near", False), odd_mode=case.get("odd_mode", False))[0]
+    if case.get("odd_mode"):
+        return [(s_ + "/mode-0466", d_) for s_, d_ in v]
+    if case["target"] == "crlf":
+        return [(s_ + "/crlf-object", d_) for s_, d_ in v]
+    return v
 
 
 def run(ctx):
     depth = 3
-    ops = TAMPERS + QUERIES
+    ops = TAMPERS + ["unprotect"] + QUERIES
     ctx.rule = (
         f"E2: every sequence of length {depth} over 6 tamper patterns (truncate, append, rewrite same / other "
-        "length, replace by rename, replace by rename keeping length and mtime; each followed by chmod 0o644 and a logical-clock mtime) and 11 queries (check, "
+        "length, replace by rename, replace by rename keeping length and mtime; each followed by chmod 0o644 and a logical-clock mtime) and 12 queries (check, "
         "oids_exist with 1 and 2 ids, hashfile.check(tree), checkout, add(verify) from a good and from a corrupt "
         "source, each also with check_exists=False) on a file object and on a directory object (and, sequences "
         "tamper-query / query-tamper-query, on a 1 MiB+ CRLF text object of a legacy md5-dos2unix store) x state {none, cold, warm (entry from before the "
@@ -356,7 +405,7 @@ def run(ctx):
         "checkout of an already loaded directory listing does not need the stored directory object (by design)",
         "tampering that keeps the 0o444 mode on a local store is trusted by design and only counted",
     ]
-    ctx.require("rejections", "acceptances", "legacy_big_text_runs")
+    ctx.require("rejections", "acceptances", "legacy_big_text_runs", "crlf_or_odd_mode_runs")
     cs = []
     keeps = [False, True] if ctx.tier == "thorough" else [False]
     for kind in ("local", "base"):
